@@ -79,6 +79,13 @@ SendAbort(i) ==
   /\ SetR(i, [LeaveRetry(r[i]) EXCEPT !.pc = "wait"])
   /\ Lab([a |-> "SendAbort", i |-> i]) /\ UNCHANGED <<n, g, w>>
 
+\* ... or fails with a transport error (the connection broke under it): both the first send and a
+\* re-send then end the call with that error
+SendBreak(i) ==
+  /\ r[i].pc \in {"sblock1", "sblockN"}
+  /\ SetR(i, Finish(LeaveRetry(r[i]), "senderr"))
+  /\ Lab([a |-> "SendBreak", i |-> i]) /\ UNCHANGED <<n, g, w>>
+
 CtxDone(x) == x.cancelled \/ x.rcancel
 
 \* retry select — each ready case is a separate nondeterministically chosen action
@@ -186,7 +193,7 @@ B == {"ok"} \cup (IF SendMayFail THEN {"fail"} ELSE {}) \cup (IF SendMayBlock TH
 Next ==
   \/ \E i \in Reqs : \/ Start(i) \/ RetryCtx(i) \/ RetryClosed(i) \/ RetryAck(i)
                      \/ WaitCtx(i) \/ WaitClosed(i) \/ WaitDone(i) \/ Cancel(i) \/ NotifyAck(i)
-                     \/ SendDone(i) \/ SendAbort(i)
+                     \/ SendDone(i) \/ SendAbort(i) \/ SendBreak(i)
                      \/ \E ok \in B : FirstSend(i, ok) \/ RetryTimer(i, ok)
   \/ \E j \in Notifs : Cas(j) \/ Decode(j) \/ \E i \in Reqs : Lookup(j, i, "ok") \/ Lookup(j, i, "err")
   \/ Tick \/ FC \/ FCRet \/ GC \/ GCRet
